@@ -231,6 +231,11 @@ Proof.
       * intros c x Hin. destruct (B c x Hin) as [G|(w' & G1 & G2)]; [now left|right; exists w'; split; [now right|exact G2]].
       * intros w' [Hw|Hw] N14 N15; [|now apply C]. apply Ok_inj in Hw. subst w'. apply orb_true_iff in Emp as [E|E]; apply N.eqb_eq in E; congruence.
     + apply orb_false_iff in Emp as (N14 & N15). apply N.eqb_neq in N14, N15.
+      destruct (pamap_has m0 (wattr_code w)) eqn:Ehas.
+      { intros H Hs. destruct (IH _ _ H Hs) as (A & B & C & D). split; [exact A|]. split; [|split; [|exact D]].
+        - intros c x Hin. destruct (B c x Hin) as [G|(w' & G1 & G2)]; [now left|right; exists w'; split; [now right|exact G2]].
+        - intros w' [Hw|Hw] M14 M15; [|now apply C]. apply Ok_inj in Hw. subst w'. apply D.
+          unfold pamap_has in Ehas. apply existsb_exists in Ehas as ([k y] & Hin & Hk). cbn [fst] in Hk. apply N.eqb_eq in Hk. subst k. eauto. }
       destruct (to_owned w) as [o| |] eqn:Eo; cbn [bind]; try discriminate.
       intros H Hs. destruct (IH _ _ H (pamap_insert_sorted _ _ _ Hs)) as (A & B & C & D). split; [exact A|]. split; [|split].
       * intros c x Hin. destruct (B c x Hin) as [G|(w' & G1 & G2)].
@@ -253,6 +258,7 @@ Lemma pamap_fill_ok : forall ws m0, (forall w, In w ws -> exists x, to_owned w =
 Proof.
   induction ws as [|w ws IH]; intros m0 H; cbn [map pamap_fill]; [eauto|].
   destruct ((wattr_code w =? 14) || (wattr_code w =? 15)); [apply IH; intros w' Hw'; apply H; now right|].
+  destruct (pamap_has m0 (wattr_code w)); [apply IH; intros w' Hw'; apply H; now right|].
   destruct (H w (or_introl eq_refl)) as (x & E). rewrite E. cbn [bind]. apply IH. intros w' Hw'. apply H. now right.
 Qed.
 
